@@ -105,8 +105,13 @@ type GenerateResult struct {
 func (h *FSEventHandler) HandleEvent(ctx context.Context, event fsnotify.Event) (result GenerateResult, err error) {
 	// Handle _templ.go files.
 	if !event.Has(fsnotify.Remove) && strings.HasSuffix(event.Name, "_templ.go") {
-		_, err = os.Stat(strings.TrimSuffix(event.Name, "_templ.go") + ".templ")
-		if !os.IsNotExist(err) {
+		var templFileInfo os.FileInfo
+		templFileInfo, err = os.Stat(strings.TrimSuffix(event.Name, "_templ.go") + ".templ")
+		// A directory called x.templ is not the source of x_templ.go.
+		if err == nil && !templFileInfo.IsDir() {
+			return GenerateResult{}, nil
+		}
+		if err != nil && !os.IsNotExist(err) {
 			return GenerateResult{}, err
 		}
 		// File is orphaned.
